@@ -4,11 +4,23 @@
 use std::cell::RefCell;
 use std::collections::HashMap;
 use std::convert::From;
+#[cfg(not(prometheus_verif))]
 use std::sync::{
     atomic::{AtomicU64 as StdAtomicU64, Ordering},
     Arc, Mutex,
 };
+#[cfg(not(prometheus_verif))]
 use std::time::{Duration, Instant as StdInstant};
+#[cfg(prometheus_verif)]
+use crate::verif::{
+    sync::{
+        atomic::{AtomicU64 as StdAtomicU64, Ordering},
+        Mutex,
+    },
+    time::Instant as StdInstant,
+};
+#[cfg(prometheus_verif)]
+use std::{sync::Arc, time::Duration};
 
 use crate::atomic64::{Atomic, AtomicF64, AtomicU64};
 use crate::desc::{Desc, Describer};
